@@ -16,27 +16,25 @@ Definition render (evs : list event) : list (Z * Z) :=
   map (fun e => (kind_code (fst e), Z.of_N (snd e))) evs.
 
 (* ---- known-finding classes.  A class is the set of projects the faithful model accepts and
-   that the model with ONLY that switch on rejects; all are decidable (both sides compute) and
+   that the model with that ONE further switch on rejects; all are decidable (both sides compute) and
    the check script evaluates exactly these (plus "inside the edited construct") per failing case. *)
-Definition with_elif  := Build_fixes true false false false false false false false.
-Definition with_guard := Build_fixes false true false false false false false false.
-Definition with_outer := Build_fixes false false true false false false false false.
-Definition with_args  := Build_fixes false false false true false false false false.
-Definition with_tryfn := Build_fixes false false false false true false false false.
-Definition with_arith := Build_fixes false false false false false true false false.
-Definition with_pat   := Build_fixes false false false false false false true false.
-Definition with_deps  := Build_fixes false false false false false false false true.
+Definition with_outer := Build_fixes true true true false false false false false.
+Definition with_args  := Build_fixes true true false true false false false false.
+Definition with_tryfn := Build_fixes true true false false true false false false.
+Definition with_arith := Build_fixes true true false false false true false false.
+Definition with_pat   := Build_fixes true true false false false false true false.
+Definition with_deps  := Build_fixes true true false false false false false true.
 
 Definition Known_by (fx : fixes) (pj : project) : Prop := check real pj = [] /\ check fx pj <> [].
 
-Definition Known_C03_elif := Known_by with_elif.     (* elif conditions/bodies never checked *)
-Definition Known_C03_guard := Known_by with_guard.   (* match guards never checked *)
 Definition Known_C03_outer := Known_by with_outer.   (* plain assignment to an outer binding = new binding *)
 Definition Known_C03_args := Known_by with_args.     (* arguments never compared with parameters *)
 Definition Known_C03_tryfn := Known_by with_tryfn.   (* `?` in a function not returning Result *)
 Definition Known_C03_arith := Known_by with_arith.   (* int + <anything>; compound assignment on non-numeric types *)
 Definition Known_C03_pat := Known_by with_pat.       (* constructor patterns not checked against the subject *)
 Definition Known_C03_deps := Known_by with_deps.     (* dependency modules' bodies never checked *)
+(* repaired (status "fixed" in known_findings.json): elif-unchecked, guard-unchecked — [real] now
+   has fx_elif and fx_guard on; see C03_elif_regression / C03_guard_regression in Props.v *)
 
 (* the union, including combinations of the above (an unchecked argument inside an elif body...) *)
 Definition Known_C03 (pj : project) : Prop := Known_by fixed pj.
